@@ -247,7 +247,7 @@ def main():
     for d in done:
         L.append("Definition src_%s %s : ser :=\n  %s.\n" % (d["name"], " ".join(d["binders"]), d["term"]))
         if expected.get(d["name"], "tied") != "tied": continue
-        Tie.append("Lemma stie_%s : forall %s, src_%s %s = %s %s.\nProof. intros; unfold src_%s, %s; ser_tie. Qed.\n" % (
+        Tie.append("Lemma stie_%s : forall %s, src_%s %s = %s %s.\nProof. intros; unfold src_%s, %s; timeout 60 ser_tie. Qed.\n" % (
             d["name"], " ".join(d["binders"]) or "(_ : unit)", d["name"], " ".join(d["args"]), MODEL_SER_NAME.get(d["name"], d["name"]), " ".join(d["args"]), d["name"], MODEL_SER_NAME.get(d["name"], d["name"])))
     def write_if_changed(name, content):
         p = os.path.join(out, name)
